@@ -645,6 +645,16 @@ def emit_fn(data, it, ckey, C, tlog, anchors_used, canary=False):
                 raise Undecided("unsupported construct: call of `%s` inside a closure / async block of %s" % (c["name"], it["path"]))
         if n_aw == 0:
             raise Undecided("lost anchor: no call of %s in %s" % (sorted(t20_names), it["path"]))
+        # A-WAIT order for CALLERS: in the real program everything that follows the call in this handler runs BEFORE the callee's
+        # waited future.  The in-line model is only right when nothing follows: an awaited call must be in TAIL position of the
+        # handler (through blocks / if / match arms), directly followed by `return`, or followed only by a constructor-only tail
+        # expression (`Ok(Resp::None)`); the places come from the syn tree (`tail_spans`).
+        tails = [tuple(x) for x in f.get("tail_spans", [])]
+        for c in f.get("calls", []):
+            if c["name"] not in t20_names or in_foreign_closure(c):
+                continue
+            if not any(a_ <= c["start"] and c["end"] <= b_ for (a_, b_) in tails):
+                raise Undecided("unsupported construct: the call of `%s` in %s is not in tail position (what follows it would run BEFORE that handler's waited future)" % (c["name"], it["path"]))
         make_async = True
         tlog.append({"t": "T20", "item": it["path"], "awaited_calls": n_aw,
                      "note": "calls of %s (functions whose actor future chain is run in line) are awaited; the function is made `async`" % sorted(t20_names)})
@@ -781,6 +791,20 @@ def emit_fn(data, it, ckey, C, tlog, anchors_used, canary=False):
     if lifted and not canary:
         out = out + b"\n" + b"\n".join(reversed(lifted))
     return out
+
+
+def _other_branch(data, a, b):
+    """True when the text between two statements leaves the block of the first one (a closing brace that is not matched by an
+    opening one in between): the second statement then belongs to another branch / match arm or to an enclosing block"""
+    depth = 0
+    for ch in data[a:b].decode(errors="replace"):
+        if ch == "{":
+            depth += 1
+        elif ch == "}":
+            depth -= 1
+            if depth < 0:
+                return True
+    return False
 
 
 def split_top(s):
